@@ -86,18 +86,26 @@ fn main() {
             let mut f = std::io::BufWriter::new(
                 std::fs::File::create(out.join(format!("impl{suffix}.txt"))).unwrap(),
             );
+            let mut fe = std::io::BufWriter::new(
+                std::fs::File::create(out.join(format!("eff{suffix}.txt"))).unwrap(),
+            );
             for (i, c) in cases.iter().enumerate() {
                 if (i as u64) % shard.1 != shard.0 {
                     continue;
                 }
                 ctx.case_no = i as u64;
-                let answers = props::execute(&mut ctx, c);
-                assert_eq!(answers.len(), c.len(), "one answer per line");
-                for a in answers {
-                    writeln!(f, "{a}").unwrap();
+                for (eff, answers) in props::execute(&mut ctx, c) {
+                    assert_eq!(answers.len(), eff.len(), "one answer per line");
+                    for l in eff {
+                        writeln!(fe, "{l}").unwrap();
+                    }
+                    for a in answers {
+                        writeln!(f, "{a}").unwrap();
+                    }
                 }
             }
             f.flush().unwrap();
+            fe.flush().unwrap();
             std::fs::write(out.join(format!("report{suffix}.json")), ctx.report.to_json()).unwrap();
         }
         "child" => {
